@@ -1,3 +1,157 @@
 import TTModel.Proto
-/-! C16 driver — stub (not built yet): answers `bad-op` to everything. -/
-def main : IO Unit := TT.Proto.mainLoop fun _ => "bad-op"
+import TTModel.Scalar
+import TTModel.C16_Leapfrog
+/-!
+C16 driver.  Requests (space separated; scalars are `p/q` in mode `rat`, 16-hex-digit IEEE bit
+patterns in mode `flt`):
+
+  lin <rat|flt> <diag|dense> n steps eps IM.. q.. p.. G(n*n, row major).. b..
+      gradient of the joint g(q) = -(G q + b)  (G any matrix, not assumed symmetric)
+      -> `q'.. ; p'.. ; K0 K1 hastings ; maxabs`  (maxabs: largest |entry| of any q, p, dU
+         passed through — exactness budget of the correspondence; `-` in mode flt)
+  tab flt <diag|dense> n steps eps IM.. q.. p.. k (q_i.. g_i..)*k
+      gradient given as a table of (position, gradient) pairs recorded from the implementation;
+      g(q) = gradient of the nearest recorded position
+      -> `q'.. ; p'.. ; K0 K1 hastings`
+  hmc rat <diag|dense> n steps eps IM.. q.. G.. b.. thr trials k (p..)*k
+      `HMCOperator._step` with `bad q := q_0 > thr` (the stub target answers nan there)
+      -> `ok q'.. ; hastings`  |  `inf q..`
+-/
+open TT TT.C16 TT.Proto
+
+class Sc (α : Type) where
+  parse : String → Option α
+  render : α → String
+  abs : α → α
+  le : α → α → Bool
+
+instance : Sc Rat := ⟨parseRat, showRat, fun x => if x < 0 then -x else x, fun a b => decide (a ≤ b)⟩
+instance : Sc Float := ⟨parseFloatBits, floatBits, Float.abs, fun a b => a ≤ b⟩
+
+instance : OfNat Rat 2 := ⟨(2 : Int)⟩
+
+abbrev P (β : Type) := StateT (List String) Option β
+
+def word : P String := fun ws => match ws with | [] => none | w :: r => some (w, r)
+def nat : P Nat := do let w ← word; match w.toNat? with | some k => pure k | none => failure
+def sc (α) [Sc α] : P α := do let w ← word; match Sc.parse w with | some x => pure x | none => failure
+def vec (α) [Sc α] (n : Nat) : P (Vec α n) := do
+  let mut xs : Array α := #[]
+  for _ in [0:n] do xs := xs.push (← sc α)
+  match xs[0]? with
+  | none => failure  -- n = 0 is never requested
+  | some d => pure fun i => xs.getD i.val d
+def mat (α) [Sc α] (n : Nat) : P (Fin n → Fin n → α) := do
+  let mut rows : Array (Vec α n) := #[]
+  for _ in [0:n] do rows := rows.push (← vec α n)
+  match rows[0]? with
+  | none => failure
+  | some d => pure fun i => rows.getD i.val d
+def imass (α) [Sc α] (kind : String) (n : Nat) : P (IMass α n) :=
+  match kind with
+  | "diag" => do pure (.diag (← vec α n))
+  | "dense" => do pure (.dense (← mat α n))
+  | _ => failure
+def done : P Unit := fun ws => match ws with | [] => some ((), []) | _ => none
+
+def showVec {α} [Sc α] {n} (v : Vec α n) : String :=
+  " ".intercalate ((List.finRange n).map fun i => Sc.render (v i))
+
+section
+variable {α : Type} [Add α] [Sub α] [Mul α] [Neg α] [Zero α] [Div α] [OfNat α 2] [Sc α] [Inhabited α]
+
+def linGrad {n} (G : Fin n → Fin n → α) (b : Vec α n) : Vec α n → Vec α n :=
+  fun q i => -((sumFin fun j => G i j * q j) + b i)
+
+def vmax {n} (v : Vec α n) (m : α) : α :=
+  (List.finRange n).foldl (fun m i => let a := Sc.abs (v i); if Sc.le m a then a else m) m
+
+def runLin (one : α) (kind : String) : P String := do
+  let n ← nat
+  if n = 0 then failure
+  let steps ← nat
+  let eps ← sc α
+  let im ← imass α kind n
+  let q ← vec α n
+  let p ← vec α n
+  let G ← mat α n
+  let b ← vec α n
+  done
+  let g := linGrad G b
+  let half := one / 2
+  let z := leapfrog g eps im steps q p
+  let k0 := kinetic half im p
+  let k1 := kinetic half im z.2
+  let dU0 := ofArr (toArr (negGrad g q))
+  let p1 : Vec α n := ofArr (toArr fun i => p i - (eps / 2) * dU0 i)
+  let tr := loopTrace g eps im steps ⟨q, p1, dU0⟩
+  let m0 := vmax dU0 (vmax p1 (vmax p (vmax q (Sc.abs eps))))
+  let m1 := tr.foldl (fun m s => vmax s.dU (vmax s.p (vmax s.q m))) m0
+  let m2 := vmax z.2 m1
+  pure s!"{showVec z.1} ; {showVec z.2} ; {Sc.render k0} {Sc.render k1} {Sc.render (k0 - k1)} ; {Sc.render m2}"
+
+end
+
+/-- nearest recorded position (squared distance), Float only -/
+def tabGrad {n} (tab : Array (Vec Float n × Vec Float n)) (dflt : Vec Float n) :
+    Vec Float n → Vec Float n := fun q =>
+  let d2 (a : Vec Float n) : Float := sumFin fun i => (a i - q i) * (a i - q i)
+  let best := tab.foldl (fun (acc : Option (Float × Vec Float n)) e =>
+    let d := d2 e.1
+    match acc with
+    | none => some (d, e.2)
+    | some (bd, bg) => if d < bd then some (d, e.2) else some (bd, bg)) none
+  match best with | some (_, gq) => gq | none => dflt
+
+def runTab (kind : String) : P String := do
+  let n ← nat
+  if n = 0 then failure
+  let steps ← nat
+  let eps ← sc Float
+  let im ← imass Float kind n
+  let q ← vec Float n
+  let p ← vec Float n
+  let k ← nat
+  let mut tab : Array (Vec Float n × Vec Float n) := #[]
+  for _ in [0:k] do
+    let qi ← vec Float n
+    let gi ← vec Float n
+    tab := tab.push (qi, gi)
+  done
+  let g := tabGrad tab (fun _ => 0.0)
+  let z := leapfrog g eps im steps q p
+  let k0 := kinetic (0.5 : Float) im p
+  let k1 := kinetic (0.5 : Float) im z.2
+  pure s!"{showVec z.1} ; {showVec z.2} ; {floatBits k0} {floatBits k1} {floatBits (k0 - k1)}"
+
+def runHmc (kind : String) : P String := do
+  let n ← nat
+  if h : n = 0 then failure else
+  let steps ← nat
+  let eps ← sc Rat
+  let im ← imass Rat kind n
+  let q ← vec Rat n
+  let G ← mat Rat n
+  let b ← vec Rat n
+  let thr ← sc Rat
+  let trials ← nat
+  let k ← nat
+  let mut ps : Array (Vec Rat n) := #[]
+  for _ in [0:k] do ps := ps.push (← vec Rat n)
+  done
+  let bad : Vec Rat n → Bool := fun q => decide (thr < q ⟨0, Nat.pos_of_ne_zero h⟩)
+  match hmcStep bad (linGrad G b) (eps / 2) eps ((1 : Rat) / 2) im steps q trials ps.toList with
+  | .ok q' hr => pure s!"ok {showVec q'} ; {showRat hr}"
+  | .inf q' => pure s!"inf {showVec q'}"
+
+def handle (line : String) : String :=
+  let r : Option String :=
+    match splitWords line with
+    | "lin" :: "rat" :: kind :: rest => (runLin (α := Rat) 1 kind).run' rest
+    | "lin" :: "flt" :: kind :: rest => (runLin (α := Float) 1.0 kind).run' rest
+    | "tab" :: "flt" :: kind :: rest => (runTab kind).run' rest
+    | "hmc" :: "rat" :: kind :: rest => (runHmc kind).run' rest
+    | _ => none
+  r.getD "bad-op"
+
+def main : IO Unit := mainLoop handle
